@@ -446,6 +446,7 @@ const (
 	motifExpiryMove
 	motifWithMetaView
 	motifPurgeIndex
+	motifWindow
 	numMotifs
 )
 
@@ -646,6 +647,44 @@ func genMotif(r *rand.Rand, m int, in *kvInput, exists map[string]bool, hot []st
 		in.Ops = append(in.Ops, Step{Kind: "dump", Coll: cn, Key: key, Start: "zero", Clock: next()})
 		view(h, "v0", &ViewParams{})
 		view(h, "v1", &ViewParams{})
+	case motifWindow:
+		// calls landing inside the read-to-write window of compare-and-swap loops
+		kvn := func(op, nested *KOp) {
+			in.Ops = append(in.Ops, Step{Kind: "kv", Coll: cn, Key: key, Handle: h, Op: op, Nested: nested, Clock: next()})
+		}
+		toucher := func() *KOp { return &KOp{Kind: pick(r, []string{"Touch", "GetAndTouchRaw"}), Exp: pick(r, farExps)} }
+		kv(&KOp{Kind: "Set", Val: sp(pick(r, []string{`{"a":1,"b":{"c":2}}`, `{"a":1,"b":2,"q":3}`, `{"n":null,"s":"x","b":{"c":{"d":5}}}`}))})
+		for j := 0; j < 2+r.Intn(2); j++ {
+			var nested *KOp
+			switch r.Intn(6) {
+			case 0:
+				nested = toucher()
+			case 1:
+				nested = &KOp{Kind: "WriteSubDoc", Path: pick(r, subdocPaths), CasMode: "zero", Val: sp(pick(r, []string{``, `null`, `1`}))}
+			case 2:
+				nested = &KOp{Kind: "Set", Val: sp(pick(r, jsonBodies))}
+			case 3:
+				nested = deleter()
+			case 4:
+				nested = xattrWrite()
+				if nested.Cb != nil {
+					nested = toucher()
+				}
+			default:
+				nested = &KOp{Kind: "WriteCas", CasMode: "current", Val: sp(pick(r, jsonBodies))}
+			}
+			switch r.Intn(4) {
+			case 0:
+				kvn(&KOp{Kind: "Update", Exp: genExp(r), Cb: &Callback{Kind: pick(r, []string{"set", "append", "delete"}), Val: sp(pick(r, jsonBodies))}}, nested)
+			case 1:
+				kvn(&KOp{Kind: "WriteUpdateWithXattrs", Cb: &Callback{Kind: "result", Val: sp(pick(r, jsonBodies)), Xs: genXs(r, false)}}, toucher())
+			case 2:
+				kvn(&KOp{Kind: "WriteSubDoc", Path: pick(r, subdocPaths), CasMode: pick(r, []string{"zero", "zero", "current"}), Val: sp(pick(r, subdocVals[:3]))}, nested)
+			default:
+				kvn(&KOp{Kind: "SubdocInsert", Path: pick(r, subdocPaths), CasMode: "zero", Val: sp(pick(r, subdocVals[:3]))}, nested)
+			}
+		}
+		kv(read())
 	case motifPurgeIndex:
 		if cn == "s1.c2" {
 			cn = "_default._default"
